@@ -411,6 +411,52 @@ func C12(tier string) int {
 			}
 		}
 	}
+	// A name that some instances already hold: whoever starts the second generation (a participant that holds the name,
+	// or an instance outside the participant set that does not), a reported success must still mean that every
+	// participant holds the returned key.
+	reuse := 0
+	{
+		all := []uint64{1, 2, 3, 4}
+		c, err := rig.NewCluster(rig.ClusterOpts{IDs: all})
+		if err != nil {
+			run.HarnessErr = err
+			return run.Finish()
+		}
+		part := []uint64{1, 2, 3}
+		c.SuitableOrder = func(_ uint64, n uint32, allp map[uint64]*core.Endpoint) []*core.Endpoint {
+			return endpointsOf(allp, part[:n])
+		}
+		for _, second := range all {
+			for _, nt := range [][2]uint32{{3, 2}, {3, 3}, {2, 2}} {
+				reuse++
+				name := fmt.Sprintf("%s/held-%d-%d-%d", rig.DistWallet, second, nt[0], nt[1])
+				pk1, parts1, err1 := c.Generate(1, name, nt[1], nt[0])
+				if err1 != nil {
+					run.HarnessErr = fmt.Errorf("first generation of %s failed: %v", name, err1)
+					c.Close()
+					return run.Finish()
+				}
+				pk2, parts2, err2 := c.Generate(second, name, nt[1], nt[0])
+				cells++
+				rp := map[string]any{"check": "C12", "name_already_held": true, "second_initiator": second, "n": nt[0], "t": nt[1]}
+				if err2 == nil {
+					for _, pr := range verifyGeneration(c, name, pk2, parts2, nt[1], 4) {
+						run.Violate(fmt.Sprintf("held-name:initiator=%d:n=%d:t=%d:%s", second, nt[0], nt[1], firstWords(pr, 6)),
+							fmt.Sprintf("%s already exists on participants %v; a second generation of that name started on instance %d (n=%d t=%d) reported success with key %x, but %s", name, part[:nt[0]], second, nt[0], nt[1], pk2[:6], pr), rp)
+					}
+					successes++
+				} else {
+					refusals++
+					// The first account must be untouched.
+					for _, pr := range verifyGeneration(c, name, pk1, parts1, nt[1], 4) {
+						run.Violate(fmt.Sprintf("held-name-damaged:initiator=%d:n=%d:t=%d:%s", second, nt[0], nt[1], firstWords(pr, 6)),
+							fmt.Sprintf("%s already existed; a second generation of that name started on instance %d was refused (%v) but afterwards %s", name, second, err2, pr), rp)
+					}
+				}
+			}
+		}
+		c.Close()
+	}
 	vacuous := []string{}
 	for n := 2; n <= maxN; n++ {
 		for t := n/2 + 1; t <= n; t++ {
@@ -422,13 +468,14 @@ func C12(tier string) int {
 	run.Coverage = map[string]any{
 		"evaluations":         cells,
 		"distinct_nontrivial": len(perNT),
-		"rule":                "clusters of n real instances wired through their real receiver handlers (messages marshalled and unmarshalled); after every successful generation each participant must at once sign with the new account addressed by name and addressed by its share public key, and list it; grid: n in 2..max, every t in 0..n+1, identifier sets (small, 10^6+i, 2^64-i, mixed), every initiator; for a valid t every order of participants returned by the peer selection and every commit completion order (all n! for small n, rotations+reversal above), and one tampered commit reply per participant and kind; oracle on success: every participant holds the account with the returned composite key, same vector/threshold/participants, share consistent with the vector, immediate signing and listing through its own services, every t-subset of partial signatures recovers a valid composite signature and no (t-1)-subset does; distinct = (n,t) cells with at least one successful generation",
+		"rule":                "clusters of n real instances wired through their real receiver handlers (messages marshalled and unmarshalled); after every successful generation each participant must at once sign with the new account addressed by name and addressed by its share public key, and list it; grid: n in 2..max, every t in 0..n+1, identifier sets (small, 10^6+i, 2^64-i, mixed), every initiator; for a valid t every order of participants returned by the peer selection and every commit completion order (all n! for small n, rotations+reversal above), and one tampered commit reply per participant and kind; oracle on success: every participant holds the account with the returned composite key, same vector/threshold/participants, share consistent with the vector, immediate signing and listing through its own services, every t-subset of partial signatures recovers a valid composite signature and no (t-1)-subset does; plus second generations of a name the participants already hold, started on a participant and on an instance outside the participant set: a reported success is judged by the same oracle, a refusal must leave the first account intact; distinct = (n,t) cells with at least one successful generation",
 		"samples":             samples.List(),
 		"exhaustive":          !capped && len(vacuous) == 0,
 		"max_n":               maxN,
 		"successful":          successes,
 		"refused":             refusals,
 		"successes_per_n_t":   perNT,
+		"second_generations_of_a_held_name": reuse,
 		"vacuous_cells":       vacuous,
 	}
 	run.Assumptions = []string{"services/sender/grpc and TLS between peers are not exercised (C19 covers the server side)", "the BLS library is correct"}
